@@ -9,9 +9,9 @@ ALL = ["C%02d" % i for i in range(1, 20)]
 TECH = {
     "C01": "MIR path-condition analysis of the key resolvers + effect/provenance rules on remover and slot primitives",
     "C02": "MIR provenance and column-uniformity analysis of creator/remover/readers; extent-discipline rule",
-    "C03": "MIR guard-dominance analysis of every key-indexed unchecked access; unchecked-site obligation table; bit-width const facts",
+    "C03": "MIR guard-dominance analysis of every key-indexed unchecked access; closed inventory of unchecked sites (per profile); bit-width const facts",
     "C04": "MIR ownership-primitive who-may-call, pairing and drop-shape rules",
-    "C05": "MIR guard formulas of the macro crate's binder functions; compile-time witnesses for generated queries",
+    "C05": "MIR guard formulas of the macro crate's binder functions; specimen expansions vs. independent matcher; generated query corpus decided by rustc's type checker (match-set witnesses)",
     "C06": "MIR shape rules for iterators and generated loops (specimen expansion)",
     "C07": "MIR loop-shape and arm-mapping rules on the ecs_iter_destroy! expansion (specimen)",
     "C08": "MIR provenance of minted handles and of the generation successor per configuration; who-may-write rule",
@@ -21,11 +21,11 @@ TECH = {
     "C12": "MIR guard formulas of push/push_within_capacity/grow/with_capacity; who-may-write len/capacity; free-list step rules",
     "C13": "MIR aggregate provenance of Clone::clone results and copy-loop ranges",
     "C14": "MIR bit-layout agreement of pack/unpack, conversion guard formulas, transmute repr facts, generated dispatch tables (specimen)",
-    "C15": "MIR guard/provenance rules on the macro crate's id assignment; const witnesses",
-    "C16": "MIR call-graph/provenance rules on cfg collectors and lookups; template literal-shape scan; compile-time witnesses",
+    "C15": "MIR guard/provenance rules on the macro crate's id assignment; generated declaration corpus with const-evaluated witnesses and compile-fail expectations",
+    "C16": "MIR call-graph/provenance rules on cfg collectors and lookups; template literal-shape scan; generated cfg-decorated declaration and query corpora (const / type-checker witnesses)",
     "C17": "MIR who-may-write/one-push-per-operation rules; generated event iterator state machine (specimen)",
     "C18": "template token scan (syn) for unsafe-freedom; fn_sig lifetime-boundedness; compile-fail witnesses with compiling twins",
-    "C19": "cfg-site inventory vs. reviewed table; debug-check effect-freedom; all rules re-run per configuration with count deltas",
+    "C19": "cfg-site inventory vs. reviewed table; debug-check effect-freedom; all rules re-run per configuration (a rule instance failing in only some configurations is a violation)",
 }
 checks = []
 na = []
